@@ -178,7 +178,9 @@ def check(report, tier, only=None):
     obs = [('disconnect', ob_disconnect), ('remove_transition', C04.ob_remove), ('add_transition', C04.ob_add), ('reason', ob_reason_mapping), ('idle_timeout', ob_transport_config),
            ('handler_exit', lambda rep: handler.ob_handler_tail(rep, PROP)), ('connection_end', C12.ob_tail_aborts_tasks),
            # a listed connection always has the handler whose exit delists it (without one a closed connection stays listed for ever)
-           ('add_peer_wiring', lambda rep: handler.ob_add_peer(rep, PROP))]
+           ('add_peer_wiring', lambda rep: handler.ob_add_peer(rep, PROP)),
+           # an entry leaves the set only through its own handler's exit, a replacement, or an explicit disconnect
+           ('removal_entry_points', C04.ob_removal_entry_points), ('lock_bracketing', C04.ob_wrappers)]
     for n, f in obs:
         if only and not any(s in n for s in only):
             continue
